@@ -93,7 +93,28 @@ type cas struct {
 	hist  int // kind of the earlier failure, see histLabel
 	hEng  int // 0: the earlier render ran on the engine that renders the case afterwards; 1: on another engine
 	hOpts int // options of the failing include beside `with`: bit0 only, bit1 sandboxed
+	// what the included template DEFINES under names the includer uses as well (mdef == 0: the older cases; the
+	// fields below are 0 then). With mdef != 0 the template that holds the include defines macro m (or
+	// from-imports an m) and imports a module as u, and calls its m and u.f after the include.
+	mdef int // see mdefLabel
+	mblk int // 1: the included template defines a block as well (plain: block k; extends: it overrides block k of its parent with parent())
+	isrc int // where the includer's m comes from: 0 its own macro, called as _self.m(); 1 `from 'ulib' import m`, called as m()
 }
+
+// what the included template defines (a plain template: at its top level; a template that extends: at the top
+// level of the parent it extends, which renders it)
+const (
+	mNone        = iota
+	mMacro       // {% macro m() %}IM{% endmacro %}, calls _self.m()
+	mFrom        // {% from 'flib' import m %}, calls m()
+	mFromAlias   // {% from 'flib' import f as m %}, calls m()
+	mImport      // {% import 'flib' as u %}, calls u.f()
+	mMacroImport // mMacro + mImport
+	mFromImport  // mFrom + mImport
+	nMdef
+)
+
+var mdefLabel = [nMdef]string{"", "macro", "from-import", "from-import-alias", "import-as", "macro+import-as", "from-import+import-as"}
 
 // kinds of the earlier failure. The failing include is `{% include T with {…} [only] [sandboxed] %}` at the top
 // level of a template `hist`; its with-hash passes a, b, c, d (values Ha … Hd) and hist is rendered with a
@@ -135,6 +156,9 @@ func (c cas) key() string {
 	}
 	if c.depth != 0 {
 		k += fmt.Sprintf("/c%d.%d.%d", c.depth, c.holder, c.kOver)
+	}
+	if c.mdef != 0 {
+		k += fmt.Sprintf("/m%d.%d.%d", c.mdef, c.mblk, c.isrc)
 	}
 	if c.hist != 0 {
 		k += fmt.Sprintf("/h%d.%d.%d", c.hist, c.hEng, c.hOpts)
@@ -247,17 +271,43 @@ func build(c cas) *program {
 	if c.extra >= 3 {
 		body = append(body, nBlock{"k", one(nText{"IK"})}, nMacroDef{"m", nil, one(nText{"IM"})}, nMacroCall{"m", nil})
 	}
+	// what the included template defines under the includer's names m and u, and its own use of them
+	var idefs []node
+	switch c.mdef {
+	case mMacro, mMacroImport:
+		idefs = append(idefs, nMacroDef{"m", nil, one(nText{"IM"})}, nMacroCall{"m", nil})
+	case mFrom, mFromImport:
+		idefs = append(idefs, nFromImport{"flib", "m", "m"}, nCall{"m"})
+	case mFromAlias:
+		idefs = append(idefs, nFromImport{"flib", "f", "m"}, nCall{"m"})
+	}
+	if c.mdef >= mImport {
+		idefs = append(idefs, nImport{"flib", "u"}, nModCall{"u", "f"})
+	}
+	if c.mdef >= mFrom && (c.target == tPlain || c.target == tExtends) {
+		w.tmpls["flib"] = lib("FM", "FF")
+	}
+	xblk := c.xblk
+	if c.mdef != 0 && c.target == tPlain {
+		if c.mblk == 1 {
+			body = append(body, nBlock{"k", one(nText{"IK"})})
+		}
+		body = append(body, idefs...)
+	}
+	if c.mdef != 0 && c.mblk == 1 {
+		xblk = 3
+	}
 	body = cat(body, one(nText{"("}), prints(",", abcd...), one(nText{")"}))
 	switch c.target { // only what the case can reach is registered (keeps a case cheap)
 	case tPlain:
 		w.tmpls["inc"] = &tmpl{body: body}
 	case tExtends:
 		inx := &tmpl{extends: "ibase", body: one(nBlock{"ib", body})}
-		ibase := &tmpl{body: cat(one(nText{"IB["}), prints(",", abcd...), one(nText{":"}), one(nBlock{"ib", one(nText{"dflt"})}), one(nText{"]"}))}
-		if c.xblk >= 1 { // a block with the name of the block the includer renders after the include
+		ibase := &tmpl{body: cat(one(nText{"IB["}), prints(",", abcd...), one(nText{":"}), one(nBlock{"ib", one(nText{"dflt"})}), idefs, one(nText{"]"}))}
+		if xblk >= 1 { // a block with the name of the block the includer renders after the include
 			ibase.body = append(ibase.body, nBlock{"k", one(nText{"BK"})})
 		}
-		switch c.xblk {
+		switch xblk {
 		case 2:
 			inx.body = append(inx.body, nBlock{"k", one(nText{"IK"})})
 		case 3:
@@ -283,10 +333,30 @@ func build(c cas) *program {
 		}
 	}
 	macroM := nMacroDef{"m", nil, one(nText{"MM"})}
-	after := cat(one(nText{"|"}), prints(",", "a", "b", "c", "d", "q"), one(nText{"|"}), one(nMacroCall{"m", nil}), one(nText{"|"}), one(nBlock{"k", one(nText{"MK"})}))
-	local := cat(one(nText{"("}), prints(",", "a", "b", "c", "d", "q"), one(nText{")"}))
 	// macros: definitions at the head of the template that holds the include; placed: the include in its placement
 	macros := one(node(macroM))
+	// own: the includer's calls of its own m and u.f (mdef != 0 only)
+	var own []node
+	heads := func(ownMacro, libName string) (head, calls []node) {
+		if c.isrc == 0 {
+			head, calls = one(node(nMacroDef{"m", nil, one(nText{ownMacro})})), one(node(nMacroCall{"m", nil}))
+		} else {
+			head, calls = one(node(nFromImport{libName, "m", "m"})), one(node(nCall{"m"}))
+		}
+		return append(head, nImport{libName, "u"}), append(calls, nModCall{"u", "f"})
+	}
+	if c.mdef != 0 {
+		macros, own = heads("MM", "ulib")
+		w.tmpls["ulib"] = lib("UM", "UF")
+	}
+	after := cat(one(nText{"|"}), prints(",", "a", "b", "c", "d", "q"), one(nText{"|"}), one(nMacroCall{"m", nil}), one(nText{"|"}), one(nBlock{"k", one(nText{"MK"})}))
+	if c.mdef != 0 {
+		after = cat(one(nText{"|"}), prints(",", "a", "b", "c", "d", "q"), one(nText{"|"}), own, one(nText{"|"}), one(nBlock{"k", one(nText{"MK"})}))
+	}
+	local := cat(one(nText{"("}), prints(",", "a", "b", "c", "d", "q"), one(nText{")"}))
+	// localOwn: the same followed by the includer's calls of its m and u.f, where the text after the include
+	// belongs to the template that made the definitions (not in a macro body, not in a block override)
+	localOwn := cat(local, own)
 	var placed []node
 	switch c.place {
 	case pTop:
@@ -294,10 +364,10 @@ func build(c cas) *program {
 	case pIf:
 		placed = one(node(nIf{one(inc)}))
 	case pFor:
-		inner := cat(one(inc), one(nText{"["}), one(nPrint{"z"}), one(nLoopIdx{}), one(nText{","}), prints(",", abcd...), one(nText{"]"}))
+		inner := cat(one(inc), one(nText{"["}), one(nPrint{"z"}), one(nLoopIdx{}), one(nText{","}), prints(",", abcd...), one(nText{"]"}), own)
 		placed = one(node(nFor{"z", []string{"1", "2"}, inner}))
 	case pBlock:
-		placed = one(node(nBlock{"kk", cat(one(inc), local)}))
+		placed = one(node(nBlock{"kk", cat(one(inc), localOwn)}))
 	case pMacro:
 		params := []string{"a", "b", "nm", "pfx", "sfx"}
 		macros = append(macros, nMacroDef{"mm", params, cat(one(inc), local)})
@@ -318,13 +388,25 @@ func build(c cas) *program {
 			route.withOn, route.sandboxed, route.with = true, true, []withEntry{{key: "b", lit: "Rb"}}
 		}
 		placed = one(node(route))
-		w.tmpls["mid"] = &tmpl{body: cat(one(nText{"M["}), one(inc), one(nText{"|"}), prints(",", "a", "b", "c", "d", "q"), one(nText{"]"}))}
+		// the template in the middle is an includer (of the include under test) and an included template (of main)
+		// at once: it defines its own m and u, which main must not see, and must keep them after the include
+		var midHead, midOwn []node
+		if c.mdef != 0 {
+			midHead, midOwn = heads("DM", "dlib")
+			midOwn = cat(one(nText{"|"}), midOwn)
+			w.tmpls["dlib"] = lib("DX", "DF")
+		}
+		w.tmpls["mid"] = &tmpl{body: cat(midHead, one(nText{"M["}), one(inc), one(nText{"|"}), prints(",", "a", "b", "c", "d", "q"), midOwn, one(nText{"]"}))}
 	}
 	padded := []string{"main", "mid"}
 	switch {
 	case c.depth == 0 && c.place == pChildBlock:
 		w.tmpls["main"] = &tmpl{extends: "base", body: one(nBlock{"kk", cat(one(inc), local)})}
-		w.tmpls["base"] = &tmpl{body: cat(one(nText{"B<"}), one(nBlock{"kk", nil}), one(nText{">"}), prints(",", "a", "b", "c", "d", "q"))}
+		baseHead, baseOwn := []node(nil), []node(nil)
+		if c.mdef != 0 { // the parent renders the block that holds the include: its m and u are probed after the block
+			baseHead, baseOwn = macros, cat(one(nText{"|"}), own)
+		}
+		w.tmpls["base"] = &tmpl{body: cat(baseHead, one(nText{"B<"}), one(nBlock{"kk", nil}), one(nText{">"}), prints(",", "a", "b", "c", "d", "q"), baseOwn)}
 	case c.depth == 0:
 		w.tmpls["main"] = &tmpl{body: cat(macros, defs, placed, after)}
 	default:
@@ -361,6 +443,11 @@ func build(c cas) *program {
 		p.padded = append(p.padded, "hist", "hmid")
 	}
 	return p
+}
+
+// lib: a template that only defines the macros m and f.
+func lib(m, f string) *tmpl {
+	return &tmpl{body: []node{nMacroDef{"m", nil, one(nText{m})}, nMacroDef{"f", nil, one(nText{f})}}}
 }
 
 // buildHist: the templates of the earlier render, which fails inside an include (see the h… constants).
@@ -604,7 +691,8 @@ func runCase(c cas) *vlib.Outcome {
 	exists := c.target == tPlain || c.target == tExtends
 	o := &vlib.Outcome{
 		// a history case is always non-trivial: the earlier render passed a, b, c, d to an include and defined them
-		Nontrivial: !exists || c.incMask != 0 || c.setMask != 0 || c.extra != 0 || c.opts&oW != 0 || c.xblk != 0 || c.hist != 0,
+		// … and so is a case of the definitions dimension: the included template defines the includer's m or u
+		Nontrivial: !exists || c.incMask != 0 || c.setMask != 0 || c.extra != 0 || c.opts&oW != 0 || c.xblk != 0 || c.hist != 0 || c.mdef != 0,
 		Counters:   map[string]int64{"renders": 1},
 	}
 	kind := "output"
@@ -617,6 +705,13 @@ func runCase(c cas) *vlib.Outcome {
 		o.Counters["includer_in_extends_chain"] = 1
 		if exists && (c.xblk >= 2 || c.extra >= 3) {
 			o.Counters["includer_in_extends_chain_same_named_block"] = 1
+		}
+	}
+	if c.mdef != 0 {
+		o.Class = "defines-" + mdefLabel[c.mdef] + "/" + o.Class
+		o.Counters["included_defines_includers_macro_or_module_name"] = 1
+		if c.mblk == 0 && c.target == tPlain {
+			o.Counters["included_defines_includers_macro_or_module_name_blockfree"] = 1
 		}
 	}
 	history := ""
@@ -654,7 +749,7 @@ func runCase(c cas) *vlib.Outcome {
 		where += " (" + c.chainLabel() + ")"
 	}
 	o.Violation = fmt.Sprintf("include %s in placement %s, target %s: got %s, want %s\n  main: %s", printInclude(p.w.tmpls2include(c)), where, targetLabel[c.target], got, want, sources["main"])
-	for _, n := range []string{"pg", "lay", "mid", "base", targetName[c.target], "ibase"} {
+	for _, n := range []string{"pg", "lay", "mid", "base", targetName[c.target], "ibase", "ulib", "dlib", "flib"} {
 		if s, ok := sources[n]; ok && (n != "ibase" || c.target == tExtends) {
 			o.Violation += fmt.Sprintf("\n  %s: %s", n, s)
 		}
@@ -927,6 +1022,69 @@ func enumerate(t *vlib.T) {
 					}
 				}
 			}
+		}
+	}
+	// 1c. what the included template DEFINES under names the includer uses as well: a macro m / a from-imported m
+	// (also through an alias) / a module imported as u, alone and together, in a template without any block, with
+	// a block, and in a template that extends; the includer (and, for the nested routes, the template in the
+	// middle) has its own m (a macro, or from-imported) and u and calls them after the include - in the loop body
+	// for every iteration, in the block, after the macro call, in the parent after the overridden block
+	db := struct {
+		ows                               []ow
+		names, incMasks, setMasks, extras []int
+		chOws                             []ow
+		chNames, chIncMasks, chSetMasks   []int
+	}{ows: chOws, names: []int{0, 2}, incMasks: []int{3}, setMasks: []int{0, 15}, extras: []int{0},
+		chNames: []int{0}, chIncMasks: []int{3}, chSetMasks: []int{15}}
+	for _, x := range chOws {
+		if x.wstyle == 0 {
+			db.chOws = append(db.chOws, x)
+		}
+	}
+	if t.Thorough() {
+		db.ows, db.names, db.incMasks, db.extras = ows, []int{0, 2, 5}, []int{0, 3}, []int{0, 2}
+		db.chOws, db.chNames, db.chIncMasks, db.chSetMasks = chOws, []int{0, 2}, []int{0, 3}, []int{0, 15}
+	}
+	allPlaces := []int{pTop, pIf, pFor, pBlock, pMacro, pChildBlock, pNest0, pNest1, pNest2, pNest3, pNest4}
+	defs := func(sh shape, places []int, pd bool, xs []ow, names, incMasks, setMasks, extras []int) bool {
+		for _, place := range places {
+			for _, target := range []int{tPlain, tExtends} {
+				for mdef := 1; mdef < nMdef; mdef++ {
+					for mblk := 0; mblk <= 1; mblk++ {
+						for isrc := 0; isrc <= 1; isrc++ {
+							for _, extra := range extras {
+								for _, nm := range names {
+									for _, x := range xs {
+										for _, im := range incMasks {
+											for _, sm := range setMasks {
+												if t.Stopped() {
+													return false
+												}
+												emit(cas{target: target, opts: x.opts, withMask: x.withMask, wstyle: x.wstyle, name: nm, place: place, incMask: im, setMask: sm, extra: extra, pad: pd,
+													depth: sh.depth, holder: sh.holder, kOver: sh.kOver, mdef: mdef, mblk: mblk, isrc: isrc})
+											}
+										}
+									}
+								}
+							}
+						}
+					}
+				}
+			}
+		}
+		return true
+	}
+	if !defs(shape{}, allPlaces, false, db.ows, db.names, db.incMasks, db.setMasks, db.extras) {
+		return
+	}
+	for _, sh := range shapes() {
+		if !defs(sh, chainPlaces(sh), false, db.chOws, db.chNames, db.chIncMasks, db.chSetMasks, []int{0}) {
+			return
+		}
+	}
+	if t.Thorough() { // the tokenizer twin: a slice
+		if !defs(shape{}, allPlaces, true, chOws, []int{0}, []int{3}, []int{15}, []int{0}) {
+			return
 		}
 	}
 	// 2. targets that exist: the full variable grid
